@@ -226,6 +226,12 @@ func (server *SugarDB) setValues(ctx context.Context, entries map[string]interfa
 	for key, value := range entries {
 		expireAt := time.Time{}
 		if entry, ok := server.store[database][key]; ok {
+			// The entry is replaced: take its size out of the memory tracker first.
+			if oldMem, err := entry.GetMem(); err == nil {
+				server.memUsed -= oldMem
+				server.memUsed -= int64(unsafe.Sizeof(key))
+				server.memUsed -= int64(len(key))
+			}
 			expireAt = entry.ExpireAt
 			// An entry that has already expired is gone: the new value does not inherit its deadline.
 			if expireAt != (time.Time{}) && expireAt.Before(server.clock.Now()) {
